@@ -529,8 +529,11 @@ pub trait MapValidBasic<T: IsNone>: TrustedLen<Item = T> + Sized {
                             if last_value == Some(v.clone()) {
                                 None
                             } else {
+                                // `i` is the position of the previous element: only a
+                                // non-null predecessor ends a run
+                                let out = if last_value.is_some() { Some(i) } else { None };
                                 last_value = Some(v);
-                                Some(i)
+                                out
                             }
                         } else {
                             let out = if last_value.is_some() { Some(i) } else { None };
